@@ -2,4 +2,4 @@
 # MANIFEST.setup_cmd: build the Lean library (all property theorems) and the model driver, offline.
 set -e
 cd "$(dirname "$0")/lean"
-lake build ShroudVerif driver
+lake build ShroudVerif $(grep -o '^name = "drv_[a-z0-9_]*"' lakefile.toml | cut -d'"' -f2)
